@@ -73,20 +73,38 @@ type Case struct {
 
 const extMP = "/proc"
 
-func mpName(m int) string {
-	if m == 0 {
-		return extMP
+// Mountpoints are opaque strings for the manager (fsMap and the bolt bucket are keyed by the exact string), so
+// every SPELLING is its own model key, also several spellings of one directory (trailing slash, doubled slash,
+// "/./", "/x/../"). The table is sorted bytewise: model key = index, so numeric order = bolt iteration order.
+var mpNames = []string{
+	extMP,
+	"/verif-c17/./mp2",
+	"/verif-c17/mp1",
+	"/verif-c17/mp1/",
+	"/verif-c17/mp1//",
+	"/verif-c17/mp2",
+	"/verif-c17/mp3",
+}
+
+func init() {
+	for i := 1; i < len(mpNames); i++ {
+		if !(mpNames[i-1] < mpNames[i]) {
+			panic("HARNESS: mountpoint table is not sorted")
+		}
 	}
-	return fmt.Sprintf("/verif-c17/mp%d", m)
+}
+
+func mpName(m int) string {
+	if m >= 0 && m < len(mpNames) {
+		return mpNames[m]
+	}
+	return fmt.Sprintf("/verif-c17/zz%d", m)
 }
 
 func mpID(s string) int {
-	if s == extMP {
-		return 0
-	}
-	if strings.HasPrefix(s, "/verif-c17/mp") {
-		if n, err := strconv.Atoi(s[len("/verif-c17/mp"):]); err == nil {
-			return n
+	for i, n := range mpNames {
+		if n == s {
+			return i
 		}
 	}
 	return 990
@@ -789,7 +807,7 @@ func coqCase(steps []step) string {
 
 // ---- generation ----
 
-const nMP, nLbl, nCfg = 4, 3, 3
+const nMP, nLbl, nCfg = 6, 3, 3
 
 type genReq struct {
 	h     int
